@@ -915,7 +915,7 @@ Proof.
   destruct (stream_N_any_buffer dcount (N.to_nat buffer_size) kind t es rs buffer_positive Hf HF HL)
     as (rows & s' & Hrun & H).
   exists rows, s'. split; [|exact H].
-  unfold rows_N, set_schema. destruct lrecl as [|n]; [lia|]. rewrite refill_is_top_up, Hrun. reflexivity.
+  unfold rows_N, set_schema, set_schema_with. destruct lrecl as [|n]; [lia|]. rewrite refill_is_top_up, Hrun. reflexivity.
 Qed.
 
 (* ------------------------------------------------------------------ readers that deliver whole records *)
@@ -943,7 +943,7 @@ Proof.
   intros Hl Hf HF _. destruct (rows_of_ok dcount t Hf es rs HF) as (rows & Hrun & Hb & Hn).
   destruct (rows_facts dcount t rows es rs Hf Hn HF) as [F1 F2].
   exists rows. split; [|split; [exact Hb|split; assumption]].
-  unfold rows_V, set_schema. destruct lrecl as [|n]; [lia|].
+  unfold rows_V, set_schema, set_schema_with. destruct lrecl as [|n]; [lia|].
   rewrite V_record_iter_ok. unfold rows_from. rewrite Hrun. reflexivity.
 Qed.
 
@@ -966,17 +966,129 @@ Proof.
   destruct (rows_of_ok dcount t Hf _ _ HF) as (rows & Hrun & Hb & Hn).
   destruct (rows_facts dcount t rows _ _ Hf Hn HF) as [F1 F2].
   exists rows. split; [|split; [exact Hb|split; assumption]].
-  unfold rows_VB, set_schema. destruct lrecl as [|n]; [lia|].
+  unfold rows_VB, set_schema, set_schema_with. destruct lrecl as [|n]; [lia|].
   rewrite (VB_record_iter_ok kind blocks HL). unfold rows_from. rewrite Hrun. reflexivity.
 Qed.
 
 (* ------------------------------------------------------------------ findings and witnesses *)
 
-Lemma lrecl_none_refuted {A} (dcount : list A -> nat) (kind : N) (t : item) (file : list A) :
-  js_has_odo (build t) = true ->
-  rows_N dcount kind None (build t) file = Err ValueError
-  /\ rows_N dcount kind (Some 0) (build t) file = Err ValueError.
-Proof. intros H. unfold rows_N, set_schema, from_schema. rewrite H. split; reflexivity. Qed.
+(* ---- COBOL_EBCDIC_Sheet.set_schema under the rules read from the source (Gen/LayoutParams.v: set_schema_catches,
+   set_schema_caught_lrecl), since fix 64e9f81: a ValueError of from_schema() leaves lrecl None *)
+Lemma set_schema_unf {A} (dcount : list A -> nat) lrecl s :
+  set_schema dcount lrecl s =
+  match lrecl with
+  | Some (S n) => Ok (S n)
+  | _ => match from_schema dcount s with
+         | Ok l => Ok (lend l)
+         | Err ValueError => Ok 0
+         | Err e => Err e
+         end
+  end.
+Proof.
+  unfold set_schema, set_schema_with. destruct lrecl as [[|n]|]; try reflexivity;
+    (destruct (from_schema dcount s) as [l|[]]; reflexivity).
+Qed.
+
+Lemma from_schema_odo {A} (dcount : list A -> nat) s : js_has_odo s = true -> from_schema dcount s = Err ValueError.
+Proof. intros H. unfold from_schema. rewrite H. reflexivity. Qed.
+
+Definition no_lrecl (lrecl : option nat) : Prop := lrecl = None \/ lrecl = Some 0.
+
+Lemma set_schema_none {A} (dcount : list A -> nat) lrecl s :
+  no_lrecl lrecl -> js_has_odo s = true -> set_schema dcount lrecl s = Ok 0.
+Proof. intros [-> | ->] H; rewrite set_schema_unf, (from_schema_odo dcount s H); reflexivity. Qed.
+
+(* lrecl None (or 0) with an OCCURS DEPENDING ON layout: RECFM N, V and VB deliver exactly what they deliver with any
+   positive lrecl (which they ignore); RECFM F has no record length to cut the file with and raises TypeError when the
+   first row is asked for *)
+Lemma lrecl_none_N {A} (dcount : list A -> nat) (kind : N) lrecl (n : nat) (s : js) (file : list A) :
+  no_lrecl lrecl -> js_has_odo s = true ->
+  rows_N dcount kind lrecl s file = rows_N dcount kind (Some (S n)) s file.
+Proof. intros Hl H. unfold rows_N. rewrite (set_schema_none dcount lrecl s Hl H), set_schema_unf. reflexivity. Qed.
+
+Lemma lrecl_none_bytes (dcount : list N -> nat) (kind : N) lrecl (n : nat) (s : js) (file : list N) :
+  no_lrecl lrecl -> js_has_odo s = true ->
+  rows_N dcount kind lrecl s file = rows_N dcount kind (Some (S n)) s file
+  /\ rows_V dcount kind lrecl s file = rows_V dcount kind (Some (S n)) s file
+  /\ rows_VB dcount kind lrecl s file = rows_VB dcount kind (Some (S n)) s file
+  /\ rows_F dcount kind lrecl s file = Ok ([], Raised TypeError).
+Proof.
+  intros Hl H. split; [apply lrecl_none_N; assumption|].
+  unfold rows_V, rows_VB, rows_F. rewrite (set_schema_none dcount lrecl s Hl H), set_schema_unf.
+  split; [reflexivity|]. split; reflexivity.
+Qed.
+
+(* what the fix repaired: without the try (catches = []) set_schema itself raises, so no reader delivers a row *)
+Lemma set_schema_old_refuted {A} (dcount : list A -> nat) (s : js) :
+  js_has_odo s = true ->
+  set_schema_with dcount [] 0 None s = Err ValueError /\ set_schema_with dcount [] 0 (Some 0) s = Err ValueError.
+Proof. intros H. unfold set_schema_with. rewrite (from_schema_odo dcount s H). split; reflexivity. Qed.
+
+(* set_schema never fails on a member of the family, whatever lrecl is *)
+Lemma slice_nil {A} a b : @slice A [] a b = [].
+Proof. unfold slice. rewrite skipn_nil. apply firstn_nil. Qed.
+
+Lemma set_schema_total {A} (dcount : list A -> nat) lrecl t :
+  flat_odo t = true -> exists l, set_schema dcount lrecl (build t) = Ok l.
+Proof.
+  intros Hf. rewrite set_schema_unf. destruct lrecl as [[|n]|]; try (eexists; reflexivity).
+  all: unfold from_schema; destruct (js_has_odo (build t)); [eexists; reflexivity|].
+  all: assert (Hc : counters_hold dcount (fun _ => dcount []) t []) by
+         (destruct (flat_odo_inv t Hf) as (i0 & rd & kids & -> & _ & _); cbn [counters_hold]; intros; rewrite slice_nil; reflexivity).
+  all: pose proof (nav_flat dcount t _ [] Hf Hc) as Hn; rewrite SR.Proofs.LayoutP.nav_of_unf in Hn.
+  all: change (lwalk dcount [] (build t) (LayoutRule.eval (LayoutRule.env_start LayoutParams.from_schema_default) LayoutParams.from_schema_start) [])
+         with (lwalk dcount [] (build t) 0 []).
+  all: destruct (lwalk dcount [] (build t) 0 []) as [[l an]|ex]; [eexists; reflexivity|discriminate].
+Qed.
+
+(* the same for ANY lrecl, None and 0 included (since fix 64e9f81 set_schema does not fail on these layouts) *)
+Lemma stream_N_any_lrecl {A} (dcount : list A -> nat) (kind : N) (lrecl : option nat) t es (rs : list (list A)) :
+  flat_odo t = true -> Forall2 (rec_ok dcount t) es rs -> legal_N (N.to_nat buffer_size) rs = true ->
+  exists rows s',
+    rows_N dcount kind lrecl (build t) (write_N rs) = Ok (rows, Done, s')
+    /\ map (@row_buf A) rows = spec_bufs (N.to_nat buffer_size) (write_N rs) (map (@length A) rs)
+    /\ heads (map (@length A) rs) (map (@row_buf A) rows) = rs
+    /\ Forall2 (fun rw r => nav_of dcount r (build t) = Ok (row_nav rw)) rows rs
+    /\ Forall2 (fun rw e => lend (n_loc (row_nav rw)) = extent e t) rows es
+    /\ buf s' = [] /\ rest s' = [].
+Proof.
+  intros Hf HF HL.
+  destruct (stream_N_any_buffer dcount (N.to_nat buffer_size) kind t es rs buffer_positive Hf HF HL)
+    as (rows & s' & Hrun & H).
+  exists rows, s'. split; [|exact H].
+  unfold rows_N. destruct (set_schema_total dcount lrecl t Hf) as [l ->]. rewrite refill_is_top_up, Hrun. reflexivity.
+Qed.
+
+Lemma stream_V_any_lrecl (dcount : list N -> nat) (kind : N) (lrecl : option nat) t es (rs : list (list N)) :
+  flat_odo t = true -> Forall2 (rec_ok dcount t) es rs -> legal_V rs = true ->
+  exists rows,
+    rows_V dcount kind lrecl (build t) (write_V rs) = Ok (rows, Done)
+    /\ map (@row_buf N) rows = rs
+    /\ Forall2 (fun rw r => nav_of dcount r (build t) = Ok (row_nav rw)) rows rs
+    /\ Forall2 (fun rw e => lend (n_loc (row_nav rw)) = extent e t) rows es.
+Proof.
+  intros Hf HF _. destruct (rows_of_ok dcount t Hf es rs HF) as (rows & Hrun & Hb & Hn).
+  destruct (rows_facts dcount t rows es rs Hf Hn HF) as [F1 F2].
+  exists rows. split; [|split; [exact Hb|split; assumption]].
+  unfold rows_V. destruct (set_schema_total dcount lrecl t Hf) as [l ->].
+  rewrite V_record_iter_ok. unfold rows_from. rewrite Hrun. reflexivity.
+Qed.
+
+Lemma stream_VB_any_lrecl (dcount : list N -> nat) (kind : N) (lrecl : option nat) t ess (blocks : list (list (list N))) :
+  flat_odo t = true -> Forall2 (Forall2 (rec_ok dcount t)) ess blocks -> legal_VB blocks = true ->
+  exists rows,
+    rows_VB dcount kind lrecl (build t) (write_VB blocks) = Ok (rows, Done)
+    /\ map (@row_buf N) rows = concat blocks
+    /\ Forall2 (fun rw r => nav_of dcount r (build t) = Ok (row_nav rw)) rows (concat blocks)
+    /\ Forall2 (fun rw e => lend (n_loc (row_nav rw)) = extent e t) rows (concat ess).
+Proof.
+  intros Hf HF HL. apply Forall2_concat in HF.
+  destruct (rows_of_ok dcount t Hf _ _ HF) as (rows & Hrun & Hb & Hn).
+  destruct (rows_facts dcount t rows _ _ Hf Hn HF) as [F1 F2].
+  exists rows. split; [|split; [exact Hb|split; assumption]].
+  unfold rows_VB. destruct (set_schema_total dcount lrecl t Hf) as [l ->].
+  rewrite (VB_record_iter_ok kind blocks HL). unfold rows_from. rewrite Hrun. reflexivity.
+Qed.
 
 Definition old_tree : item :=
   Group 0%N Once None (ICons (Elem 1%N 1 Once None) (ICons (Elem 2%N 2 (Odo 1%N) None) (ICons (Elem 3%N 2 Once None) INil))).
@@ -1070,6 +1182,6 @@ Proof.
   exists rows. split; [|split; [exact Hb|split; assumption]].
   assert (Hl : 1 <= lrecl).
   { unfold legal_F in HL. apply andb_prop in HL as [H1 _]. apply Nat.leb_le in H1. exact H1. }
-  unfold rows_F, set_schema. destruct lrecl as [|n]; [lia|].
+  unfold rows_F, set_schema, set_schema_with. destruct lrecl as [|n]; [lia|].
   rewrite (F_record_iter_ok kind (S n) ps HL). unfold rows_from. rewrite Hrun. reflexivity.
 Qed.
